@@ -1218,7 +1218,8 @@ def run(ctx):
         "(<= 14 operations over print/log/rule/out/line/control/bell/clear/show_cursor/capture/export with Text, markup, Panel, "
         "Padding, Styled, Table, Control renderables) x random configurations; + links needing attribute escaping; + malformed "
         "(unbalanced end_capture, record=False, empty link); + plain consoles where the buffer appends of print/out/rule/print() are derived "
-        "(random histories, and every list of <= 2 strings <= 2 characters over {a, space, newline, tab, wide} x widths 0..5 x 4 option sets); "
+        "(random histories, and every list of <= 2 strings <= 2 characters over {a, space, newline, tab, wide} x widths 0..5 x 4 option sets) "
+        "and the text of log(*strings) with the time / path columns on or off; "
         "+ histories around a running Live display; + `with console:` blocks mixed with captures, also unbalanced; save_text/save_html among "
         "the exports. distinct = distinct canonical requests (one per history with 4 observations, one per derived append)"
         % (L, len(configs))
@@ -1293,7 +1294,7 @@ MANIFEST = {
     "C01 line/piece bridge). Proved for "
     "the repaired variant, which is what /repo contains now (fixes 114bbe8, e488480, 1202b8a; b97fe77 for simplify); the witnesses "
     "old_capture_is_recorded, old_href_breaks_html, old_simplify_bell_in_html and nested_capture_steals (by evaluation) show rich 9.10.0 "
-    "as found violating them. Tie: ~8k (quick) / ~250k (thorough) histories per run executed on real "
+    "as found violating them. Tie: ~11k (quick) / ~130k (thorough; sum of the loop bounds in run()) histories per run executed on real "
     "rich.console.Console and on the model (file writes, every return value, final record, buffer and depth compared), plus the "
     "theorems' executable statements evaluated on rich's own outputs with independent oracles (terminal-stream tokenizer, "
     "html.parser, twin console).",
@@ -1313,6 +1314,9 @@ MANIFEST = {
     "code_format it is at the tags-removed level and needs the text before {code} to end outside a tag. "
     "(7) Single thread, is_jupyter False, pager out of scope; save_text/save_html are compared as export + file read back. "
     "Findings of this property, all repaired in /repo: capture-recorded (F17, fix 114bbe8), html-href-unescaped (fix e488480), "
-    "nested-capture-steals (fix 1202b8a); the flag constants hold the repaired values.",
+    "nested-capture-steals (fix 1202b8a); the flag constants hold the repaired values: RECORD_IN_RENDER = 0, MERGE_CTL = 0 "
+    "(C13's fix b97fe77), ESCAPE_HREF = 1, CAPTURE_MARKS = 1. No `known:` line exists for C15, so the check prints no "
+    "KNOWN-FINDING line. (8) The seeded concurrency change C15-d1 (_check_buffer without _record_buffer_lock) is outside this "
+    "single-threaded check (exit 0); it is caught by C11 with a concrete schedule.",
     "design_ref": "DESIGN.md section 7, C15",
 }
